@@ -200,6 +200,48 @@ func fatal(prop, verif string, err error) {
 
 func dumpModel(p *Program, what string) {
 	switch what {
+	case "cmds":
+		c := &Ctx{P: p, Analysed: map[string]int{}, shared: map[string]any{}}
+		m := c.coroModel()
+		fmt.Println("err:", m.Err)
+		var ks []string
+		for k, f := range m.Request {
+			ks = append(ks, k+"->"+f.Name)
+		}
+		sort.Strings(ks)
+		fmt.Println("request:", ks)
+		for k, f := range m.Background {
+			fmt.Println("background:", k, f.Name)
+		}
+		for _, tp := range [][2]string{{pkgPromise, "Promise"}, {pkgTask, "Task"}, {pkgLock, "Lock"}, {pkgSchedule, "Schedule"}, {pkgCallback, "Callback"}, {pkgTAio, "SenderSubmission"}, {pkgTApi, "SearchPromisesRequest"}, {pkgTApi, "SearchSchedulesRequest"}, {pkgTApi, "ClaimTaskResponse"}} {
+			ls := m.structLits(tp[0], tp[1])
+			ls = append(ls, m.patches(tp[0], tp[1])...)
+			for _, l := range ls {
+				var fs []string
+				for k, v := range l.Fields {
+					fs = append(fs, k+"="+v)
+				}
+				sort.Strings(fs)
+				fmt.Printf("%s in %s @%s\n   %s\n   conds=%v\n", l.Type, l.Func, p.pos(l.Pos), strings.Join(fs, "\n   "), l.Conds)
+			}
+		}
+		if os.Getenv("DUMP_OBJ") != "" {
+			return
+		}
+		taio := p.Pkg(pkgTAio)
+		for _, n := range taio.Types.Scope().Names() {
+			if !strings.HasSuffix(n, "Command") {
+				continue
+			}
+			for _, l := range m.commandLits(n) {
+				var fs []string
+				for k, v := range l.Fields {
+					fs = append(fs, k+"="+v)
+				}
+				sort.Strings(fs)
+				fmt.Printf("%s in %s @%s\n   %s\n   conds=%v\n", l.Type, l.Func, p.pos(l.Pos), strings.Join(fs, "\n   "), l.Conds)
+			}
+		}
 	case "sql":
 		for _, be := range [][2]string{{"sqlite", pkgSqlite}, {"postgres", pkgPostgres}} {
 			b, err := extractBackend(p, be[0], be[1])
